@@ -20,7 +20,16 @@ from harness.tlaparse import iter_dump_states
 UID, GID = 4242, 4343
 
 
-def _write_config(repo, scratch, cfg):
+TRUE_SPELLINGS = ["yes", "true", "on", "1", "Yes", "ON", "True"]        # every spelling configparser.getboolean accepts
+FALSE_SPELLINGS = ["no", "false", "off", "0", "No", "OFF", "False"]
+
+
+def _spell(val, k):
+    sp = TRUE_SPELLINGS if val else FALSE_SPELLINGS
+    return sp[k % len(sp)]
+
+
+def _write_config(repo, scratch, cfg, k=0):
     cp = configparser.ConfigParser()
     cp.read(os.path.join(repo, "conf", "pygopherd.conf"))
     docroot = os.path.join(scratch, "docroot")
@@ -33,12 +42,13 @@ def _write_config(repo, scratch, cfg):
     cp.set(s, "servername", "localhost")
     cp.set(s, "servertype", "ThreadingTCPServer")
     cp.set(s, "mimetypes", os.path.join(repo, "conf", "mime.types"))
-    cp.set(s, "usechroot", "yes" if cfg["chroot"] else "no")
+    # an unreadable value (no boolean spelling) when the case says so; otherwise one of the accepted spellings, rotating
+    cp.set(s, "usechroot", "enabled" if cfg.get("garbled") else _spell(cfg["chroot"], k))
     for opt, on, val in (("setuid", cfg["uid"], "gopheruser"), ("setgid", cfg["gid"], "gophergroup")):
         cp.remove_option(s, opt)
         if on:
             cp.set(s, opt, val)
-    cp.set(s, "enable_tls", "yes" if cfg["tls"] else "no")
+    cp.set(s, "enable_tls", _spell(cfg["tls"], k // 7))
     cp.set(s, "tls_certfile", os.path.join(repo, "testdata", "demo.crt"))
     cp.set(s, "tls_keyfile", os.path.join(repo, "testdata", "demo.key"))
     cp.set("logger", "logmethod", "none")
@@ -48,7 +58,7 @@ def _write_config(repo, scratch, cfg):
     return path, docroot
 
 
-def _child(conf_path, docroot, fault_name, fault_index, wfd, starter="root"):
+def _child(conf_path, docroot, fault_name, fault_index, wfd, starter="root", startdir="elsewhere"):
     """Runs in a forked child: install recorders, run the real initialize(), report events."""
     import errno
     import grp
@@ -58,6 +68,11 @@ def _child(conf_path, docroot, fault_name, fault_index, wfd, starter="root"):
     import ssl
 
     events = []
+    # where the daemon is started from: somewhere else, a sibling whose path has the document root's path as a string
+    # prefix, or a directory inside the document root (real directories, real chdir, before any recorder is installed)
+    start = {"elsewhere": os.path.dirname(docroot), "lookalike": docroot + "-old", "docroot": os.path.join(docroot, "sub")}[startdir]
+    os.makedirs(start, exist_ok=True)
+    os.chdir(start)
     # the emulated kernel identity: uid 0, or an ordinary account (OTHER) that is not the configured one
     OTHER = 1000
     sim = {"chrooted": False, "n": 0, "uid": 0 if starter == "root" else OTHER}
@@ -186,16 +201,18 @@ def _child(conf_path, docroot, fault_name, fault_index, wfd, starter="root"):
     os._exit(0)
 
 
-def run_case(repo, cfg, fault_name=None, fault_index=0, starter="root"):
+def run_case(repo, cfg, fault_name=None, fault_index=0, starter="root", startdir="elsewhere"):
+    import zlib
     scratch = tempfile.mkdtemp(prefix="verif-c19-", dir=tlc.scratch_root())
     try:
-        conf_path, docroot = _write_config(repo, scratch, cfg)
+        k = zlib.crc32(("%s|%s|%s|%s|%s" % (_cfgstr(cfg), fault_name, fault_index, starter, startdir)).encode())
+        conf_path, docroot = _write_config(repo, scratch, cfg, k)
         r, w = os.pipe()
         pid = os.fork()
         if pid == 0:
             os.close(r)
             try:
-                _child(conf_path, docroot, fault_name, fault_index, w, starter)
+                _child(conf_path, docroot, fault_name, fault_index, w, starter, startdir)
             finally:
                 os._exit(3)
         os.close(w)
@@ -225,40 +242,52 @@ def main(chk, replay=None):
         if res["inv_violations"]:
             chk.model_violation("MC_C19", res["inv_violations"], res["out"][-2000:])
         cases = []
-        for st in iter_dump_states(res["dump"], wanted={"pc", "cfg", "fault", "phase", "euid"}):
+        for st in iter_dump_states(res["dump"], wanted={"pc", "cfg", "fault", "phase", "euid", "cwd"}):
             if st["pc"] == 1 and st["phase"] == "starting":
-                cases.append((dict(st["cfg"]), None if st["fault"] == "none" else st["fault"], st["euid"]))
+                cases.append((dict(st["cfg"]), None if st["fault"] == "none" else st["fault"], st["euid"], st["cwd"]))
     finally:
         tlc.cleanup(res)
     if replay:
         with open(replay) as fp:
             rp = json.load(fp)
         c = rp["case"]
-        cases = [(c["cfg"], c.get("fault"), c.get("starter", "root"))]
+        c["cfg"].setdefault("garbled", False)
+        cases = [(c["cfg"], c.get("fault"), c.get("starter", "root"), c.get("startdir", "elsewhere"))]
         if c.get("fault_index"):
             cases = []
-            out = run_case(repo, c["cfg"], fault_index=c["fault_index"], starter=c.get("starter", "root"))
-            replayed = [{"id": "replay", "init": {"cfg": c["cfg"], "starter": c.get("starter", "root")}, "events": out["events"],
-                         "case": c, "exc": out["exc"]}]
+            out = run_case(repo, c["cfg"], fault_index=c["fault_index"], starter=c.get("starter", "root"), startdir=c.get("startdir", "elsewhere"))
+            replayed = [{"id": "replay", "init": {"cfg": c["cfg"], "starter": c.get("starter", "root"), "startdir": c.get("startdir", "elsewhere")},
+                         "events": out["events"], "case": c, "exc": out["exc"]}]
     # 2. spec -> code: run the real initialize() on every case TLC enumerated
     traces = list(replayed) if replay and not cases else []
-    for cfg, fault, starter in cases:
-        out = run_case(repo, cfg, fault_name=fault, starter=starter)
-        traces.append({"id": "cfg=%s as=%s fault=%s" % (_cfgstr(cfg), starter, fault), "init": {"cfg": cfg, "starter": starter},
-                       "events": out["events"], "case": {"cfg": cfg, "fault": fault, "starter": starter}, "exc": out["exc"]})
+    from concurrent.futures import ThreadPoolExecutor
+    pool = ThreadPoolExecutor(int(os.environ.get("VERIF_PROCS") or 8))
+    cases = sorted(cases, key=lambda c: (_cfgstr(c[0]), str(c[1]), c[2], c[3]))
+    outs = list(pool.map(lambda c: run_case(repo, c[0], fault_name=c[1], starter=c[2], startdir=c[3]), cases))
+    for (cfg, fault, starter, startdir), out in zip(cases, outs):
+        traces.append({"id": "cfg=%s as=%s from=%s fault=%s" % (_cfgstr(cfg), starter, startdir, fault),
+                       "init": {"cfg": cfg, "starter": starter, "startdir": startdir},
+                       "events": out["events"], "case": {"cfg": cfg, "fault": fault, "starter": starter, "startdir": startdir},
+                       "exc": out["exc"]})
     # 3. every call the real code actually made, failing in turn (measured, not predicted)
     if not replay:
-        for cfg, fault, starter in [c for c in cases if c[1] is None]:
-            base = [t for t in traces if t["case"] == {"cfg": cfg, "fault": None, "starter": starter}][0]
+        jobs = []
+        for cfg, fault, starter, startdir in [c for c in cases if c[1] is None and c[3] == "elsewhere" and not c[0]["garbled"]]:
+            base = [t for t in traces if t["case"] == {"cfg": cfg, "fault": None, "starter": starter, "startdir": startdir}][0]
             ncalls = len([e for e in base["events"] if "ok" in e])
-            for k in range(1, ncalls + 1):
-                out = run_case(repo, cfg, fault_index=k, starter=starter)
-                traces.append({"id": "cfg=%s as=%s call#%d fails" % (_cfgstr(cfg), starter, k), "init": {"cfg": cfg, "starter": starter},
-                               "events": out["events"], "case": {"cfg": cfg, "fault_index": k, "starter": starter}, "exc": out["exc"]})
+            jobs += [(cfg, k, starter) for k in range(1, ncalls + 1)]
+        outs = list(pool.map(lambda j: run_case(repo, j[0], fault_index=j[1], starter=j[2]), jobs))
+        for (cfg, k, starter), out in zip(jobs, outs):
+            traces.append({"id": "cfg=%s as=%s call#%d fails" % (_cfgstr(cfg), starter, k),
+                           "init": {"cfg": cfg, "starter": starter, "startdir": "elsewhere"},
+                           "events": out["events"], "case": {"cfg": cfg, "fault_index": k, "starter": starter, "startdir": "elsewhere"},
+                           "exc": out["exc"]})
+    pool.shutdown()
     # vacuity guard: started by root and with no fault, the real start-up must get as far as serving
-    for t in traces:
-        if t["case"].get("fault", 0) is None and t["case"].get("starter") == "root" and t["events"][-1]["ev"] != "serve":
-            raise core.MachineryError("C19: fault-free start-up as root did not reach serving for %s: %s" % (t["id"], t["exc"]))
+    # (the guard only gates a PASS: a run that is rejected by a property clause is a verdict, not a machinery failure)
+    not_serving = [t for t in traces
+                   if t["case"].get("fault", 0) is None and t["case"].get("starter") == "root"
+                   and not t["case"]["cfg"].get("garbled") and t["events"][-1]["ev"] != "serve"]
     injected = sum(1 for t in traces if any(e.get("ok") is False for e in t["events"]))
     if not replay and injected == 0:
         raise core.MachineryError("C19: no fault was injected in any run: substitutes not exercised")
@@ -270,14 +299,19 @@ def main(chk, replay=None):
         chk.violation(key, rj["clause"], dict(t["case"], cfgstr=_cfgstr(t["case"]["cfg"])),
                       {"events": t["events"], "rejected_at_event": rj["at"], "exception": t["exc"]})
     chk.note_drift(tv["drift"])
+    if not tv["rejected"] and not_serving:
+        t = not_serving[0]
+        raise core.MachineryError("C19: fault-free start-up as root did not reach serving for %s: %s" % (t["id"], t["exc"]))
     nontrivial = len({json.dumps(t["events"], sort_keys=True) + json.dumps(t["init"], sort_keys=True) for t in traces
                       if any(e["ev"] in ("chroot", "setgroups", "setgid", "setuid") for e in t["events"])})
     cov = {
         "states": res["distinct"], "transitions": res["generated"], "exhaustive": True,
         "traces_validated_against_impl": tv["accepted"],
         "evaluations": len(traces), "distinct_nontrivial": nontrivial,
-        "rule": "cases = every initial state of MC_C19 (16 option combinations incl. TLS x started by root or by an ordinary "
-                "account x every failing call of the modelled program, account lookups included) plus, per combination, the k-th call the real initialize() made failing for every k; "
+        "rule": "cases = every initial state of MC_C19 (16 option combinations incl. TLS, plus an unreadable usechroot value, x started "
+                "by root or by an ordinary account x started from elsewhere / from a sibling directory whose path has the document "
+                "root as a string prefix / from inside the root x every failing call of the modelled program, account lookups "
+                "included; option values rotate through every spelling configparser accepts) plus, per combination, the k-th call the real initialize() made failing for every k; "
                 "non-trivial = distinct recorded call sequence containing at least one privileged call",
         "samples": [{"id": t["id"], "events": t["events"]} for t in traces[:2] + traces[-2:]],
         "checker_cmd": res["cmd"] + " ; " + tv["cmd"],
@@ -294,4 +328,4 @@ def main(chk, replay=None):
 
 
 def _cfgstr(cfg):
-    return "".join(k[0] if cfg[k] else "-" for k in ("chroot", "uid", "gid", "tls"))
+    return "".join(k[0] if cfg[k] else "-" for k in ("chroot", "uid", "gid", "tls")) + ("!" if cfg.get("garbled") else "")
